@@ -22,16 +22,20 @@ def generate(api):
     U = api.P.Untranslatable
 
     def cls_of(tree, name, rel):
-        for n in tree.body:
-            if isinstance(n, ast.ClassDef) and n.name == name:
-                return n
-        raise U("%s: class %s not found" % (rel, name))
+        cls_of.tree = tree
+        return api.P.find_class(tree, name, rel)
 
     def method(cls, name, rel):
-        for n in cls.body:
-            if isinstance(n, ast.FunctionDef) and n.name == name:
-                return n
-        raise U("%s: %s.%s not found" % (rel, cls.name, name))
+        # the one definition of the method; the factories are plain classmethods, __init__ is undecorated
+        fn = api.P.find_function(cls_of.tree, cls.name, name, rel,
+                                 decorators=() if name == "__init__" else ("classmethod",))
+        want = ["self"] if name == "__init__" else ["cls"]
+        a = fn.args
+        if [x.arg for x in a.args] != want or a.vararg or a.kwarg or a.kwonlyargs or \
+                len(fn.decorator_list) != (0 if name == "__init__" else 1):
+            raise U("%s:%d: %s.%s(%s) %sexpected" % (rel, fn.lineno, cls.name, name, want[0],
+                                                     "" if name == "__init__" else "as a classmethod "))
+        return fn
 
     def is_doc(st):
         return isinstance(st, ast.Expr) and isinstance(st.value, ast.Constant) and isinstance(st.value.value, str)
@@ -89,12 +93,14 @@ def generate(api):
     def border_factory(name):
         fn = method(bcls, name, rel)
         body = [s for s in fn.body if not is_doc(s)]
-        if not (len(body) == 2 and isinstance(body[0], ast.If) and isinstance(body[1], ast.Return)):
+        slot = "cls._%s" % name
+        if not (len(body) == 2 and isinstance(body[0], ast.If) and isinstance(body[1], ast.Return)
+                and not body[0].orelse and ast.unparse(body[0].test) == "%s is None" % slot
+                and body[1].value is not None and ast.unparse(body[1].value) == slot):
             raise U("%s: BorderStyle.%s: unexpected shape" % (rel, name))
         d = dict(bdef)
-        inner = body[0].body
-        if not (isinstance(inner[0], ast.Assign) and isinstance(inner[0].value, ast.Call)
-                and getattr(inner[0].value.func, "id", None) == "cls" and not inner[0].value.args):
+        inner = [s for s in body[0].body if not is_doc(s)]
+        if not (len(inner) >= 2 and ast.unparse(inner[0]) == "style = cls()"):
             raise U("%s: BorderStyle.%s: `style = cls()` expected" % (rel, name))
         for st in inner[1:-1]:
             a = attr_assign(st, "style")
@@ -102,15 +108,25 @@ def generate(api):
                 raise U("%s:%d: BorderStyle.%s: unexpected statement" % (rel, st.lineno, name))
             d[a[0]] = strval(a[1], "%s:%d" % (rel, st.lineno))
         last = inner[-1]
-        if attr_assign(last, "cls") is None:
-            raise U("%s: BorderStyle.%s: cache assignment expected" % (rel, name))
+        if ast.unparse(last) != "%s = style" % slot:
+            raise U("%s: BorderStyle.%s: cache assignment `%s = style` expected" % (rel, name, slot))
         return d
 
     borders = {n: border_factory(n) for n in ("none", "ascii", "solid")}
+    for n in borders:
+        api.P.class_slot_is_none(tree, "BorderStyle", "_" + n, rel)
+        # the cache slot is written by its factory only
+        slots = [x for x in ast.walk(tree) if isinstance(x, ast.Attribute) and x.attr == "_" + n
+                 and isinstance(x.ctx, (ast.Store, ast.Del))]
+        if len(slots) != 1:
+            raise U("%s: BorderStyle._%s is assigned in %d places" % (rel, n, len(slots)))
 
     # ---------------------------------------------------------------- table styles
     tree, rel = api.parse("ui/style/table_style.py")
     tcls = cls_of(tree, "TableStyle", rel)
+    api.P.plain_import(tree, "copy", rel)
+    api.P.imported_as(tree, "Alignment", (".alignment", "clikit.ui.style.alignment"), rel)
+    api.P.imported_as(tree, "BorderStyle", (".border_style", "clikit.ui.style.border_style"), rel)
     tdef = {}
     for st in method(tcls, "__init__", rel).body:
         if is_doc(st):
@@ -140,8 +156,7 @@ def generate(api):
         body = [s for s in fn.body if not is_doc(s)]
         d = dict(base)
         border = None
-        if not (isinstance(body[0], ast.Assign) and isinstance(body[0].value, ast.Call)
-                and getattr(body[0].value.func, "id", None) == "TableStyle" and not body[0].value.args):
+        if not (len(body) >= 2 and ast.unparse(body[0]) in ("style = TableStyle()", "style = cls()")):
             raise U("%s: TableStyle.%s: `style = TableStyle()` expected" % (rel, name))
         if not (isinstance(body[-1], ast.Return) and getattr(body[-1].value, "id", None) == "style"):
             raise U("%s: TableStyle.%s: `return style` expected" % (rel, name))
@@ -151,8 +166,9 @@ def generate(api):
                 if a[0] == "border_style":
                     v = a[1]
                     # copy.copy(BorderStyle.<factory>())
-                    ok = (isinstance(v, ast.Call) and isinstance(v.func, ast.Attribute) and v.func.attr == "copy"
-                          and len(v.args) == 1 and isinstance(v.args[0], ast.Call)
+                    ok = (isinstance(v, ast.Call) and ast.unparse(v.func) in ("copy.copy", "copy.deepcopy")
+                          and len(v.args) == 1 and not v.keywords and isinstance(v.args[0], ast.Call)
+                          and not v.args[0].args and not v.args[0].keywords
                           and isinstance(v.args[0].func, ast.Attribute)
                           and getattr(v.args[0].func.value, "id", None) == "BorderStyle"
                           and v.args[0].func.attr in borders)
